@@ -815,18 +815,38 @@ func gset(h string, iv string) string {
 
 // timings / positions of the process, as the model's association lists
 func failedAtGal(t *Timings, t0 int64) string {
+	items := []string{}
+	for _, h := range vTimingHosts(t, NodeFailedAt) {
+		items = append(items, vk.T(hostGal(h), vk.Z(t.Get(NodeFailedAt, h).UnixNano()-t0)))
+	}
+	return vk.L(items)
+}
+
+// vTimingHosts: the hosts with a running clock of the given kind, read through the public API of Timings over
+// every host name of the current fake world (plus h1..h9), sorted
+func vTimingHosts(t *Timings, tt TimingType) []string {
+	names := map[string]bool{}
+	for i := 1; i <= 9; i++ {
+		names[fmt.Sprintf("h%d", i)] = true
+	}
+	vCurWorldMu.Lock()
+	w := vCurWorld
+	vCurWorldMu.Unlock()
+	if w != nil {
+		w.Mu.Lock()
+		for h := range w.Nodes {
+			names[h] = true
+		}
+		w.Mu.Unlock()
+	}
 	hs := []string{}
-	for h, v := range t.m[NodeFailedAt] {
-		if !v.IsZero() {
+	for h := range names {
+		if !t.Get(tt, h).IsZero() {
 			hs = append(hs, h)
 		}
 	}
 	sort.Strings(hs)
-	items := []string{}
-	for _, h := range hs {
-		items = append(items, vk.T(hostGal(h), vk.Z(t.m[NodeFailedAt][h].UnixNano()-t0)))
-	}
-	return vk.L(items)
+	return hs
 }
 func positionsGal(m map[string]string) string {
 	hs := []string{}
